@@ -16,7 +16,7 @@ from pbt.universe import vu
 
 LEVEL = 'exploration'
 RULE = ('Engine "probe": DAGs (1-7 nodes) of probing tasks - default filter_context, a filter_context selecting the context keys '
-        'named by a parameter, and a deliberately non-idempotent wrapping filter - x backends {serial, fork, spawn; fork and spawn Labs alternating inside one process} x max_workers x generated contexts (nested values); the caller '
+        'named by a parameter, and a deliberately non-idempotent wrapping filter - x backends {serial, fork, spawn; fork and spawn Labs alternating inside one process} x max_workers x generated contexts (nested values; passed complete, or as a dict that is filled in after Lab() and before run_tasks); the caller '
         'mutates a module global and appends to a module-level list of the task module after import and before run_tasks. Each '
         'run() reports pid, parent pid, native thread id, the module global, the list, and its value embeds a digest of '
         'self.context. Oracle: value == reference evaluator with the reference-filtered context (context clause, every backend); '
@@ -132,7 +132,8 @@ CTX_VALUES = st.one_of(st.integers(0, 5), st.sampled_from(['ctxvalue-aaaaaaaa', 
 
 
 def probe_spec(backend: str):
-    def fix(sp, ctx):
+    def fix(sp, ctx, late=False):
+        sp['lab']['late_context'] = late
         for n in sp['nodes']:
             n['mode'] = 'probe'
         sp['requested'] = [{'ref': n['id'], 'fresh': False} for n in sp['nodes']]
@@ -142,7 +143,7 @@ def probe_spec(backend: str):
         return sp
     base = specs.dag_spec(min_nodes=1, max_nodes=4 if backend == 'spawn' else 7, backends=(backend,), types=['NN', 'N2', 'CtxSub', 'CtxSub2', 'Z', 'CtxWrap'],
                           pre_cache=False, bust=False, allow_fresh_same_parent=True)
-    return st.builds(fix, base, st.dictionaries(st.sampled_from(['a', 'b', 'c', 'zz', 'other']), CTX_VALUES, max_size=4))
+    return st.builds(fix, base, st.dictionaries(st.sampled_from(['a', 'b', 'c', 'zz', 'other']), CTX_VALUES, max_size=4), st.booleans())
 
 
 def ctx_spec(backends):
